@@ -701,6 +701,15 @@ func runAll(c *run.Ctx) {
 	for i := 0; i < c.N(16000, 200000); i++ {
 		c.Case("geom", i, geomCase)
 	}
+	cidx := 0
+	for _, cn := range []int{255, 256, 257, 1023, 1024, 1025} {
+		for _, kind := range []int{4, 5} {
+			cidx++
+			cn, kind := cn, kind
+			ct := model.CTypes[cidx%4]
+			c.Case("counts", cidx, func(k *run.K) { judgeTree(k, model.SizedTree(kind, cn, ct)) })
+		}
+	}
 	// curves of every length 1..140 (and around 256, 512, 1024) followed by further curves
 	idx := 0
 	sizes := []int{254, 255, 256, 257, 258, 511, 512, 513, 1023, 1024, 1025}
